@@ -48,6 +48,44 @@ type Run struct {
 	ruleOrder  []string
 	ruleTexts  map[string]string
 	floorFails []string
+	imp        *importCtx
+}
+
+// importCtx: while set, the rules of another property's check are evaluated under this run:
+// rule id X becomes <prefix>X; rules not in only are dropped.
+type importCtx struct {
+	prefix string
+	only   map[string]bool
+}
+
+// Import evaluates f (another property's rule function) under this run, keeping only the named
+// rules and renaming them with prefix, so that a property whose statement includes a clause that
+// a sibling property already decides is armed by the very same rule code.
+func (r *Run) Import(prefix string, only []string, f func(*Run)) {
+	m := map[string]bool{}
+	for _, o := range only {
+		m[o] = true
+	}
+	r.imp = &importCtx{prefix, m}
+	counts := r.Counts
+	r.Counts = map[string]int{}
+	f(r)
+	for k, v := range r.Counts {
+		counts[prefix+k] = v
+	}
+	r.Counts = counts
+	r.imp = nil
+}
+
+// mapRule: the rule id under the current import, ok=false when the rule is dropped.
+func (r *Run) mapRule(id string) (string, bool) {
+	if r.imp == nil {
+		return id, true
+	}
+	if !r.imp.only[id] {
+		return "", false
+	}
+	return r.imp.prefix + id, true
 }
 
 func NewRun(prop, tier string, P *Prog, verifDir string) *Run {
@@ -57,6 +95,10 @@ func NewRun(prop, tier string, P *Prog, verifDir string) *Run {
 
 // Rule registers the text of a rule (shown in evidence).
 func (r *Run) Rule(id, text string) {
+	id, ok := r.mapRule(id)
+	if !ok {
+		return
+	}
 	if _, ok := r.ruleTexts[id]; !ok {
 		r.ruleOrder = append(r.ruleOrder, id)
 	}
@@ -66,6 +108,10 @@ func (r *Run) Rule(id, text string) {
 func (r *Run) key(rule, inst string) string { return r.Property + "." + rule + "@" + inst }
 
 func (r *Run) add(rule, inst, status, where, detail string, witness []string) *Obligation {
+	rule, ok := r.mapRule(rule)
+	if !ok {
+		return nil
+	}
 	k := r.key(rule, inst)
 	if o, ok := r.oblByKey[k]; ok {
 		// same instance reported twice: violated wins, details are appended
@@ -107,6 +153,9 @@ func (r *Run) Count(name string, n int) { r.Counts[name] += n }
 // obligation of its own (a rule matching zero sites would pass vacuously forever; and a
 // deleted anchor is how a removed mechanism shows up).
 func (r *Run) Floor(rule, what string, got, min int) {
+	if _, ok := r.mapRule(rule); !ok {
+		return
+	}
 	r.Counts[what] = got
 	if got < min {
 		r.Bad(rule, "floor/"+what, "", fmt.Sprintf("rule matched %d instance(s) of %q; %d were confirmed on the reference tree — an anchored mechanism was removed or renamed", got, what, min))
